@@ -267,6 +267,17 @@ def wordKind (c : Case) (wd : Word) : WordKind :=
 
 def trigL (c : Case) (l : LId) : List Nat := match c.pre.execOf l with | some d => [d] | none => []
 
+/-- the matched loaders whose placeholder has to be processed for word `w`.  The serial runner handles the
+    placeholders of one word strictly one after the other, so those after the first creator that produces `w` return at
+    once (`regex_group.found`) and their `executed` task is not needed; under the parallel runners a later placeholder
+    may start before `found` is set. -/
+def neededLoaders (c : Case) (w : Nat) : List (Nat × LId) :=
+  let ms := matched c.pre w c.pre.tasks
+  if !c.serial then ms else
+  match ms.findIdx? (fun (t, l) => (mkMake c.makeTab (c.pre.creatorOf l) t).any (fun nt => nt.targets.contains w)) with
+  | some i => ms.take (i + 1)
+  | none => ms
+
 /-- everything the selection may legitimately execute -/
 def roots (c : Case) : List Nat :=
   match c.sel with
@@ -276,7 +287,7 @@ def roots (c : Case) : List Nat :=
     | .task => [wd.w]
     | .target t => [t]
     | .sub l => wd.w :: trigL c l
-    | .rx => producersAll c wd.w ++ ((matched c.pre wd.w c.pre.tasks).flatMap fun (_, l) => trigL c l)
+    | .rx => producersAll c wd.w ++ ((neededLoaders c wd.w).flatMap fun (_, l) => trigL c l)
     | .unknown => []
 
 /-- C15 `target` on an observed run (events oldest first) -/
